@@ -108,4 +108,27 @@ example :
     (run db (.union 2 c r false)).rows.map (fun row => ["a"].map (byName (run db (.union 2 c r false)).visible row))
       = [[.int 1], [.int 2], [.int 3]] := by decide +kernel
 
+
+/-! ### shape verbs and row verbs act on different components of the table, so they commute -/
+
+/-- `select` only changes which columns are visible, `filter` only which rows remain -/
+theorem select_filter_commute (db : DB) (i j k l : NodeId) (c : Ast) (cols : List (Uid × ColMeta)) (p : List Expr) :
+    run db (.filter j (.select i c cols) p) = run db (.select l (.filter k c p) cols) := by
+  simp [run]
+
+theorem rename_filter_commute (db : DB) (i j k l : NodeId) (c : Ast) (m : List (String × String)) (p : List Expr) :
+    run db (.filter j (.rename i c m) p) = run db (.rename l (.filter k c p) m) := by
+  simp [run]
+
+/-- row-preserving shape verbs keep the order an `arrange` established, so a later `slice_head` cuts the intended rows -/
+theorem select_arrange_slice_commute (db : DB) (i j k l m n : NodeId) (c : Ast) (cols : List (Uid × ColMeta)) (o : List Ord)
+    (cnt off : Int) :
+    run db (.sliceHead k (.select j (.arrange i c o) cols) cnt off) = run db (.select n (.sliceHead m (.arrange l c o) cnt off) cols) := by
+  simp [run]
+
+theorem rename_arrange_slice_commute (db : DB) (i j k l m n : NodeId) (c : Ast) (mp : List (String × String)) (o : List Ord)
+    (cnt off : Int) :
+    run db (.sliceHead k (.rename j (.arrange i c o) mp) cnt off) = run db (.rename n (.sliceHead m (.arrange l c o) cnt off) mp) := by
+  simp [run]
+
 end Pdt.C15
